@@ -104,7 +104,9 @@ func main() {
 			g.fs = append(g.fs, f)
 			g.ws = append(g.ws, bufio.NewWriterSize(f, 1<<20))
 		}
+		before := sharedState()
 		d(g)
+		g.emit(map[string]interface{}{"k": "sh", "before": before, "after": sharedState(), "key": "shared-state|" + os.Args[2]}, "shared-state")
 		for i := range g.ws {
 			g.ws[i].Flush()
 			g.fs[i].Close()
